@@ -18,7 +18,14 @@ class TlcError(Exception):
 
 
 def _java_cmd(extra_props=()):
-    return ["java", "-XX:+UseParallelGC", "-Xss16m"] + list(extra_props) + ["-cp", JAR + ":" + DEPS, "tlc2.TLC"]
+    # (a bounded heap: the default - a quarter of the machine's memory, of which TLC reserves its fingerprint set at
+    #  start - makes a dozen concurrent model checks fail to start on a busy machine; the fingerprint set spills to disk)
+    heap = [] if any(str(x).startswith("-Xmx") for x in extra_props) else ["-Xmx%s" % os.environ.get("MXV_TLC_HEAP", "4g")]
+    return ["java", "-XX:+UseParallelGC", "-Xss16m"] + heap + list(extra_props) + ["-cp", JAR + ":" + DEPS, "tlc2.TLC"]
+
+
+_JVM_START_FAILURES = ("Could not reserve enough space", "Cannot allocate memory", "unable to create native thread",
+                       "There is insufficient memory", "Error occurred during initialization of VM")
 
 
 def _run(args, env=None, timeout=1800, cwd=SPEC_DIR, props=()):
@@ -26,13 +33,19 @@ def _run(args, env=None, timeout=1800, cwd=SPEC_DIR, props=()):
     if env:
         e.update(env)
     t0 = time.time()
-    try:
-        p = subprocess.run(_java_cmd(props) + args, cwd=cwd, env=e, stdout=subprocess.PIPE,
-                           stderr=subprocess.STDOUT, timeout=timeout)
-    except subprocess.TimeoutExpired as ex:
-        subprocess.run(["pkill", "-f", "tlc2[.]TLC.*" + re.escape(args[-1])], check=False)
-        raise TlcError("TLC timeout after %ss: %s" % (timeout, " ".join(args)))
-    out = p.stdout.decode("utf-8", "replace")
+    for attempt in range(3):
+        try:
+            p = subprocess.run(_java_cmd(props) + args, cwd=cwd, env=e, stdout=subprocess.PIPE,
+                               stderr=subprocess.STDOUT, timeout=timeout)
+        except subprocess.TimeoutExpired as ex:
+            subprocess.run(["pkill", "-f", "tlc2[.]TLC.*" + re.escape(args[-1])], check=False)
+            raise TlcError("TLC timeout after %ss: %s" % (timeout, " ".join(args)))
+        out = p.stdout.decode("utf-8", "replace")
+        # the JVM itself could not start (memory pressure from other processes): nothing was checked - try again
+        if attempt < 2 and "TLC2 Version" not in out and any(m in out for m in _JVM_START_FAILURES):
+            time.sleep(5 * (attempt + 1))
+            continue
+        break
     return p.returncode, out, time.time() - t0
 
 
